@@ -10,7 +10,7 @@ import traceback
 
 VERIF = os.path.dirname(os.path.dirname(os.path.abspath(__file__)))
 REPO = os.environ.get('VERIF_REPO', '/repo')
-REAL_PY = os.path.join(VERIF, '.venv', 'bin', 'python')   # same interpreter as /venv/bin/python (+ z3); miasmx NOT instrumented
+REAL_PY = '/verif/.venv/bin/python'   # created by setup.sh: the repository's interpreter (/venv/bin/python) + z3; miasmx NOT instrumented
 EXIT_OK, EXIT_VIOLATION, EXIT_HARNESS = 0, 1, 3
 
 
